@@ -200,6 +200,9 @@ static struct table t_uref = { "uref", 'U', .psize = sizeof(struct uref) };
 static struct table t_ubuf = { "ubuf", 'b', .psize = sizeof(struct ubuf_block) };
 static struct table t_udict = { "udict", 'd', .psize = sizeof(struct udict) };
 static struct table t_mem = { "mem", 'm' };
+/* pumps and blockers handed out by the mock event loop (harness/vloop.c observer) */
+static struct table t_pump = { "pump", 'w' };
+static struct table t_blk = { "blk", 'k' };
 
 static long tab_add(struct table *t, void *p, bool print)
 {
@@ -228,6 +231,28 @@ static long tab_del(struct table *t, void *p, bool print)
         }
     if (print) printf("%s free UNKNOWN\n", t->name);
     return -1;
+}
+static void loop_obj(int alloc, const char *kind, const void *p)
+{
+    struct table *t = kind[0] == 'p' ? &t_pump : &t_blk;
+    if (alloc) tab_add(t, (void *)p, true);
+    else tab_del(t, (void *)p, true);
+}
+/* source pumps of the application (idlers on the mock loop): `pump wN`, `inp pN wM ...`, `pstart`, `pstop`, `pfree` */
+#define MAXAP 8
+static struct { char name[8]; struct upump *upump; } apumps[MAXAP];
+static int apump_find(const char *n)
+{
+    for (int i = 0; i < MAXAP; i++)
+        if (apumps[i].upump != NULL && !strcmp(apumps[i].name, n)) return i;
+    return -1;
+}
+static void apump_cb(struct upump *upump)
+{
+    /* a source that produces on demand: one call-back per start */
+    for (int i = 0; i < MAXAP; i++)
+        if (apumps[i].upump == upump) printf("pumprun %s\n", apumps[i].name);
+    upump_stop(upump);
 }
 /* pool poisoning: every structure of the table resting in the manager's pool
  * is poisoned; before the manager is entered for an allocation everything is
@@ -540,6 +565,7 @@ bool pd_ext_c(int nt, char **tok)
         g_pooldepth = nt > 1 ? atoi(tok[1]) : 0;
         interpose();
         if (g_loop == NULL) {
+            vloop_obj_cb = loop_obj;
             g_loop = vloop_mgr_alloc_depth(g_pooldepth, g_pooldepth);
             urefcount_init(&vclock_rc, vclock_dead);
             vclock.refcount = &vclock_rc;
@@ -618,6 +644,53 @@ bool pd_ext_c(int nt, char **tok)
             upipe_attach_upump_mgr(up);
         if (up == NULL) o->name[0] = 0;
         ret(up ? 0 : -1);
+        return true;
+    }
+    if (!strcmp(c, "pump") && nt >= 2) {
+        int k = -1;
+        for (int i = 0; i < MAXAP; i++) if (apumps[i].upump == NULL) { k = i; break; }
+        if (k < 0 || g_loop == NULL || apump_find(tok[1]) >= 0) { ret(-1); return true; }
+        snprintf(apumps[k].name, sizeof(apumps[k].name), "%s", tok[1]);
+        apumps[k].upump = upump_alloc_idler(g_loop, apump_cb, NULL, NULL);
+        if (apumps[k].upump == NULL) { ret(-1); return true; }
+        upump_start(apumps[k].upump);
+        ret(0);
+        return true;
+    }
+    if ((!strcmp(c, "pstart") || !strcmp(c, "pstop") || !strcmp(c, "pfree")) && nt >= 2) {
+        int k = apump_find(tok[1]);
+        if (k < 0) { ret(-1); return true; }
+        if (c[2] == 't' && c[3] == 'a') upump_start(apumps[k].upump);
+        else if (c[1] == 's') upump_stop(apumps[k].upump);
+        else { struct upump *u = apumps[k].upump; apumps[k].upump = NULL; upump_stop(u); upump_free(u); }
+        ret(0);
+        return true;
+    }
+    if (!strcmp(c, "pstate") && nt >= 2) {
+        int k = apump_find(tok[1]);
+        if (k < 0) { ret(-1); return true; }
+        struct vloop_pump_info info;
+        bool ok = vloop_pump_info(g_loop, apumps[k].upump, &info);
+        printf("pstate %s active=%d\n", tok[1], ok && info.active);
+        ret(0);
+        return true;
+    }
+    if (!strcmp(c, "inp") && nt >= 5) {
+        /* upipe_input with a source pump: the pipe may block it while it holds the buffer */
+        struct upipe *up = find_any(tok[1]);
+        int k = apump_find(tok[2]);
+        if (up == NULL || k < 0 || up->mgr->upipe_input == NULL) { ret(-1); return true; }
+        unsigned id = atoi(tok[3]);
+        size_t size = atoi(tok[4]);
+        int nseg = nt > 5 ? atoi(tok[5]) : 1;
+        uint8_t *data = malloc(size + 1);
+        for (size_t i = 0; i < size; i++) data[i] = (uint8_t)(id * 7 + i);
+        struct uref *u = make_block(data, size, nseg);
+        free(data);
+        uref_cx_set_id(u, id);
+        printf("input u%ld id=%u\n", uref_uid(u), id);
+        upipe_input(up, u, &apumps[k].upump);
+        ret(0);
         return true;
     }
     if (!strcmp(c, "loop")) {
